@@ -1,4 +1,5 @@
 import DaeVerif.C19.Proofs
+import DaeVerif.C19.LifecycleProofs
 /-!
 # C19 — property theorems
 
@@ -568,5 +569,246 @@ theorem mac_key_bytes (e : Endian) (m0 m1 m2 m3 m4 m5 : Nat) (h0 : m0 < 256) (h1
     rcases hx with h | h | h | h | h | h | h <;> omega
   rw [lpm_key_bytes e _ (by simp [GoAddr.as16, goMacAddr16, zeros]) (by simpa [GoAddr.as16] using hb)]
   simp [cLpmProbe, GoAddr.as16]
+
+/-! ## F. Where shared keys are built (construction sites, helper constructors) -/
+
+/-- **Closure over construction sites.** Every place where package control constructs or modifies a value of
+a type it hands to the kernel (as a map key, or as a value it writes — derived from the map-I/O table) is
+either named in `buildSiteClass` with the harness stream that executes that function against the
+kernel-side constructor, or is the body of a helper constructor whose shape the generated harness executes
+on its own (and accepts only if it is one of the kernel's derivations on every input).  A new site of
+any other kind refutes this theorem — the check then fails closed. -/
+theorem every_build_site_classified : ∀ s ∈ Gen.goBuildSites, buildSiteOk s = true := by decide +kernel
+
+example : (Gen.goBuildSites.filter (fun s => kernelBound s.typ)).length ≥ 15 := by decide +kernel
+-- a helper like the one of seed C19-g, were it not auto-executable, would be refuted:
+example : buildSiteOk ⟨n!"control.UdpEndpoint.TrackUdpConnStateTuplePair", n!"stub.bpfTuplesKey", n!"zero",
+    [n!"Sip.U6Addr8", n!"Dip.U6Addr8", n!"Sport", n!"Dport"], false, false, ""⟩ = false := by decide +kernel
+example : unsetFields ⟨n!"control.x", n!"stub.bpfTuplesKey", n!"zero",
+    [n!"Sip.U6Addr8", n!"Dip.U6Addr8", n!"Sport", n!"Dport"], false, true, ""⟩ = [n!"L4proto"] := by decide +kernel
+
+/-- No stale classification: every entry of `buildSiteClass` names a construction site that exists in the
+sources now (a renamed or removed function must be re-classified, it cannot silently keep its entry). -/
+theorem classified_sites_exist :
+    ∀ c ∈ buildSiteClass, Gen.goBuildSites.any (fun s => nameEq s.fn c.1 && nameEq (baseTypeName s.typ) c.2.1) = true := by
+  decide +kernel
+
+/-- The helper constructors the check knows by name exist with an auto-executed shape (so their meaning in
+`ctorMeaning` is enforced on every run by the generated harness). -/
+theorem named_constructors_are_executed :
+    ∀ m ∈ ctorMeaning, Gen.goCtorSigs.any (fun c => nameEq c.fn m.1 && (autoShape? c).isSome) = true := by
+  decide +kernel
+
+/-- `get_tuples` of the reply direction is `copy_reversed_tuples` of the key. -/
+theorem reply_direction_key (e : Endian) (f : Flow) (hf : f.WF) :
+    cTuplesKey e f.reverse = cReverseKey (cTuplesKey e f) := by
+  have hr : f.reverse.WF := by
+    obtain ⟨h1, h2, h3, h4, h5, h6⟩ := hf
+    refine ⟨?_, h3, h2, h5, h4, h6⟩
+    cases hv : f.v4 <;> simp_all [Flow.reverse]
+  rw [← reversed_key_bytes e f false hf]
+  exact (tuples_key_bytes e f.reverse false false hr).symm
+
+/-- **Helper constructors, `(src, dst, proto) → key`.** The two derivations the generated harness offers such
+a helper are, for every flow, byte order and Go form of the peers, exactly the kernel's two keys for
+that packet: `get_tuples` and `copy_reversed_tuples` of it. -/
+theorem ap_candidates_are_kernel_keys (e : Endian) (f : Flow) (m1 m2 : Bool) (hf : f.WF) :
+    apCandidates e (f.goSrc m1) (f.goDst m2) f.proto
+      = [(n!"fwd", cTuplesKey e f), (n!"rev", cReverseKey (cTuplesKey e f))] := by
+  have hr : f.reverse.WF := by
+    obtain ⟨h1, h2, h3, h4, h5, h6⟩ := hf
+    refine ⟨?_, h3, h2, h5, h4, h6⟩
+    cases hv : f.v4 <;> simp_all [Flow.reverse]
+  have h2 := tuples_key_bytes e f.reverse m2 m1 hr
+  have e1 : f.reverse.goSrc m2 = f.goDst m2 := rfl
+  have e2 : f.reverse.goDst m1 = f.goSrc m1 := rfl
+  rw [e1, e2, reply_direction_key e f hf] at h2
+  unfold apCandidates
+  rw [tuples_key_bytes e f m1 m2 hf, show f.proto = f.reverse.proto from rfl, h2]
+
+/-- **Helper constructors, `key → key`.** `copy_reversed_tuples` is an involution on well-formed keys (40
+bytes, padding clear) and keeps `l4proto`: a helper that loses a member cannot be either derivation. -/
+theorem reversed_key_involutive (e : Endian) (f : Flow) (hf : f.WF) :
+    cReverseKey (cReverseKey (cTuplesKey e f)) = cTuplesKey e f
+    ∧ ((cReverseKey (cTuplesKey e f)).drop 36).take 1 = [f.proto] := by
+  have hr : f.reverse.WF := by
+    obtain ⟨h1, h2, h3, h4, h5, h6⟩ := hf
+    refine ⟨?_, h3, h2, h5, h4, h6⟩
+    cases hv : f.v4 <;> simp_all [Flow.reverse]
+  have hrr : f.reverse.reverse = f := by cases f; rfl
+  constructor
+  · rw [← reply_direction_key e f hf, ← reply_direction_key e f.reverse hr, hrr]
+  · rw [← reply_direction_key e f hf]
+    obtain ⟨hlen, _, _, _, _, _⟩ := hr
+    have hs : (flowAddr16 f.reverse.v4 f.reverse.src).length = 16 := by
+      apply flowAddr16_length; cases hv : f.reverse.v4 <;> simp_all
+    have hd : (flowAddr16 f.reverse.v4 f.reverse.dst).length = 16 := by
+      apply flowAddr16_length; cases hv : f.reverse.v4 <;> simp_all
+    obtain ⟨_, _, _, _, k5⟩ := key_slices (flowAddr16 f.reverse.v4 f.reverse.src) (flowAddr16 f.reverse.v4 f.reverse.dst)
+      (beBytes 2 f.reverse.sport) (beBytes 2 f.reverse.dport) [f.reverse.proto] (zeros 3) hs hd (beBytes_length _ _) (beBytes_length _ _) rfl
+    simp only [cTuplesKey, cIp_eq] at k5 ⊢
+    rw [k5]; rfl
+
+example : (kkCandidates (cTuplesKey .little ⟨true, [10, 0, 0, 1], [8, 8, 8, 8], 40000, 443, 17⟩)).map (·.2) =
+    [[0,0,0,0,0,0,0,0,0,0,255,255,10,0,0,1, 0,0,0,0,0,0,0,0,0,0,255,255,8,8,8,8, 156,64, 1,187, 17, 0,0,0],
+     [0,0,0,0,0,0,0,0,0,0,255,255,8,8,8,8, 0,0,0,0,0,0,0,0,0,0,255,255,10,0,0,1, 1,187, 156,64, 17, 0,0,0]] := by decide +kernel
+
+/-! ## G. Life of a `conn_state_map` key -/
+
+/-- **The keys an endpoint tracks are the kernel's keys.** For every UDP flow, byte order and Go form of the
+two peers, `TrackUdpConnStateTuplePair(src, dst)` computes exactly the key `get_tuples` builds for a packet
+of the flow and the key `copy_reversed_tuples` derives from it — all 40 bytes, `l4proto` = 17 included. -/
+theorem track_keys_are_kernel_keys (e : Endian) (f : Flow) (m1 m2 : Bool) (hf : f.WF) (hu : f.proto = 17) :
+    trackKeys e (f.goSrc m1) (f.goDst m2) = (cTuplesKey e f, cReverseKey (cTuplesKey e f)) := by
+  have h := ap_candidates_are_kernel_keys e f m1 m2 hf
+  unfold apCandidates at h
+  rw [hu] at h
+  unfold trackKeys
+  have h1 := (List.cons.inj h).1
+  have h2 := (List.cons.inj (List.cons.inj h).2).1
+  rw [(Prod.mk.inj h1).2, (Prod.mk.inj h2).2]
+
+/-- **Only a release deletes, and only what the endpoint holds.** In any state, if a step removes a key from
+`conn_state_map` then it is the teardown of an open endpoint that tracked exactly that key: entries of other
+logical entities (another protocol number, another port, …) are never touched. -/
+theorem kernel_loses_only_held_keys (w : UWorld) (op : UOp) (k : Key) (hk : k ∈ w.kernel)
+    (hgone : k ∉ (ustep w op).kernel) :
+    ∃ i ep, op = .release i ∧ w.eps[i]? = some ep ∧ ep.closed = false ∧ k ∈ ep.keys := by
+  cases op with
+  | seen k' =>
+    exfalso; apply hgone
+    simp only [ustep, insertKey]
+    split
+    · exact hk
+    · exact List.mem_append_left _ hk
+  | track i e src dst =>
+    exfalso; apply hgone
+    simp only [ustep]
+    cases hi : w.eps[i]? with
+    | none => simpa using hk
+    | some ep => by_cases hc : ep.closed = true <;> simp [hc, hk]
+  | adopt i g =>
+    exfalso; apply hgone
+    simp only [ustep]
+    cases hi : w.eps[i]? with
+    | none => simpa using hk
+    | some ep =>
+      by_cases hc : ep.closed = true
+      · simp [hc, hk]
+      · by_cases hs : (w.trk g == w.trk ep.owner) = true <;> simp [hc, hs, hk]
+  | release i =>
+    cases hi : w.eps[i]? with
+    | none => exfalso; apply hgone; simpa [ustep, hi] using hk
+    | some ep =>
+      by_cases hc : ep.closed = true
+      · exfalso; apply hgone; simpa [ustep, hi, hc] using hk
+      · have hc' : ep.closed = false := by simpa using hc
+        refine ⟨i, ep, rfl, hi, hc', ?_⟩
+        apply Classical.byContradiction
+        intro hn
+        apply hgone
+        have := kernel_releaseAll_keeps (w.trackers.getD (w.trk ep.owner) []) w.kernel ep.keys k hk hn
+        simp only [ustep, hi, hc', Bool.false_eq_true, ↓reduceIte]
+        split
+        · exact hk
+        · exact this
+  | freeze => exact absurd hk hgone
+
+/-- **No entry outlives its endpoints (all histories).** Start from any number of endpoints and any
+assignment of generations to trackers; run ANY sequence of kernel insertions, `TrackUdpConnStateTuplePair`,
+`adoptGeneration` (reloads, with shared or separate trackers) and teardowns, in which no deletion fault is
+injected and the kernel re-creates an entry of a tracked flow only while an open endpoint still holds it (`TimelyRun`).  Then every entry of
+`conn_state_map` under a key the control plane has ever tracked is still held by an open endpoint. -/
+theorem conn_state_entries_never_outlive_their_endpoints (n : Nat) (trackerOf : List Nat) (ops : List UOp)
+    (ht : TimelyRun (UWorld.init n trackerOf) ops) :
+    let w := urun (UWorld.init n trackerOf) ops
+    ∀ k ∈ w.kernel, k ∈ w.ever → ∃ ep ∈ w.eps, ep.closed = false ∧ k ∈ ep.keys := by
+  intro w k hk hev
+  obtain ⟨ep, hm, hh⟩ := (inv_run _ (inv_init n trackerOf) ops ht).noOrphan k hk hev
+  refine ⟨ep, hm, ?_⟩
+  simp only [Endpoint.holds, Bool.and_eq_true] at hh
+  exact ⟨by simpa using hh.1, by simpa using hh.2⟩
+
+/-- … in particular, once every endpoint is torn down, no tracked flow has an entry left, in either direction. -/
+theorem all_released_nothing_left (n : Nat) (trackerOf : List Nat) (ops : List UOp)
+    (ht : TimelyRun (UWorld.init n trackerOf) ops)
+    (hall : ∀ ep ∈ (urun (UWorld.init n trackerOf) ops).eps, ep.closed = true) :
+    ∀ k ∈ (urun (UWorld.init n trackerOf) ops).ever, k ∉ (urun (UWorld.init n trackerOf) ops).kernel := by
+  intro k hev hk
+  obtain ⟨ep, hm, hc, _⟩ := conn_state_entries_never_outlive_their_endpoints n trackerOf ops ht k hk hev
+  rw [hall ep hm] at hc
+  exact Bool.noConfusion hc
+
+/-- … and the reference counts the trackers keep are exact in every reachable state (this is what makes a
+shared key survive the teardown of one of its two endpoints and go with the last). -/
+theorem tracker_counts_are_exact (n : Nat) (trackerOf : List Nat) (ops : List UOp)
+    (ht : TimelyRun (UWorld.init n trackerOf) ops) :
+    let w := urun (UWorld.init n trackerOf) ops
+    ∀ t k, t < w.trackers.length → (w.trackers.getD t []).count k = holdersOf w.eps w.trackerOf t k :=
+  (inv_run _ (inv_init n trackerOf) ops ht).counts
+
+-- non-vacuity: a two-endpoint history with a shared key, a reload onto a separate tracker and both teardowns
+example :
+    let a : GoAddrPort := ⟨⟨true, [10, 0, 0, 1]⟩, 40000⟩
+    let b : GoAddrPort := ⟨⟨false, v4Prefix ++ [8, 8, 8, 8]⟩, 443⟩
+    let ks := trackKeys .little a b
+    let ops := [UOp.seen ks.1, .seen ks.2, .track 0 .little a b, .track 1 .little a b, .adopt 1 2, .release 0]
+    let w := urun (UWorld.init 2 [0, 0, 1]) ops
+    TimelyRun (UWorld.init 2 [0, 0, 1]) ops ∧ w.kernel = [] ∧ (urun w [.release 1]).kernel = [] := by
+  decide +kernel
+
+example :
+    let a : GoAddrPort := ⟨⟨true, [10, 0, 0, 1]⟩, 40000⟩
+    let b : GoAddrPort := ⟨⟨false, v4Prefix ++ [8, 8, 8, 8]⟩, 443⟩
+    let ks := trackKeys .little a b
+    let ops := [UOp.seen ks.1, .seen ks.2, .track 0 .little a b, .track 1 .little a b, .release 0]
+    let w := urun (UWorld.init 2 [0, 0, 1]) ops
+    w.kernel = [ks.1, ks.2] ∧ (urun w [.release 1]).kernel = [] := by
+  decide +kernel
+
+/-- The hypothesis "no deletion fault" of the two theorems above is needed: with a map that rejects deletions the
+teardown returns an error, the tracker forgets the keys all the same, and the entries stay until the
+kernel's own 120 s backstop (behaviour of the code as it is; executed by the harness, op `ufreeze`). -/
+theorem failed_delete_leaves_entries :
+    let a : GoAddrPort := ⟨⟨true, [10, 0, 0, 1]⟩, 40000⟩
+    let b : GoAddrPort := ⟨⟨true, [8, 8, 8, 8]⟩, 443⟩
+    let ks := trackKeys .little a b
+    let w := urun (UWorld.init 1 [0]) [UOp.seen ks.1, .seen ks.2, .track 0 .little a b, .freeze, .release 0]
+    w.kernel = [ks.1, ks.2] ∧ w.trackers = [[]] := by decide +kernel
+
+/-! ## H. `match_set` images -/
+
+theorem match_set_model_follows_layout : matchSetModelFollowsLayout = true := by decide +kernel
+
+/-- **All 24 bytes of a rule.** For either byte order and all member values, the kernel reads back from the
+image the control plane stores: the 16 value bytes, `not`, `type`, `outbound`, `must` and `mark`. -/
+theorem match_set_image_reads_back (e : Endian) (value : List Nat) (not_ must : Bool) (type outbound mark : Nat)
+    (hv : value.length = 16) (ht : type < 256) (ho : outbound < 256) (hm : mark < 2 ^ 32) :
+    let img := goMatchSetImage e value not_ type outbound must mark
+    img.length = 24 ∧ img.take 16 = value
+    ∧ cMatchSetScalars e img = [if not_ then 1 else 0, type, outbound, if must then 1 else 0, mark] := by
+  intro img
+  have h4 : (nativeBytes e 4 mark).length = 4 := nativeBytes_length e 4 mark
+  have himg : img = value ++ ([if not_ then 1 else 0, type % 256, outbound % 256, if must then 1 else 0] ++ nativeBytes e 4 mark) := by
+    simp [img, goMatchSetImage]
+  refine ⟨by simp [himg, hv, h4], by rw [himg]; exact List.take_left' hv, ?_⟩
+  unfold cMatchSetScalars
+  have g : ∀ j, j < 4 → img.getD (16 + j) 0 = ([if not_ then 1 else 0, type % 256, outbound % 256, if must then 1 else 0] ++ nativeBytes e 4 mark).getD j 0 := by
+    intro j _
+    rw [himg, List.getD_eq_getElem?_getD, List.getD_eq_getElem?_getD, ← hv, List.getElem?_append_right (by omega)]
+    simp
+  have d : (img.drop 20).take 4 = nativeBytes e 4 mark := by
+    have : img = (value ++ [if not_ then 1 else 0, type % 256, outbound % 256, if must then 1 else 0]) ++ nativeBytes e 4 mark := by
+      simp [himg]
+    rw [this, List.drop_left' (by simp [hv])]
+    exact List.take_of_length_le (by omega)
+  rw [d, nativeVal_nativeBytes e 4 mark (by simpa using hm)]
+  have g0 := g 0 (by omega); have g1 := g 1 (by omega); have g2 := g 2 (by omega); have g3 := g 3 (by omega)
+  simp only [Nat.add_zero] at g0
+  rw [g0, g1, g2, g3]
+  simp [Nat.mod_eq_of_lt ht, Nat.mod_eq_of_lt ho]
+
+example : goMatchSetImage .little (goSetIndexValue 3) true 2 200 false 0x11223344 =
+    [3,0,0,0, 0,0,0,0, 0,0,0,0, 0,0,0,0, 1, 2, 200, 0, 0x44, 0x33, 0x22, 0x11] := by decide +kernel
 
 end DaeVerif.C19.Props
